@@ -2,6 +2,7 @@ package checks
 
 import (
 	"bytes"
+	"crypto/sha256"
 	"encoding/xml"
 	"fmt"
 	"math/rand/v2"
@@ -692,6 +693,25 @@ func (c08) Exec(c *core.Case) (out *core.Outcome) {
 					}
 				}
 			}
+		}
+	}
+	// a part of an upload in progress is no object: the name under which the posix backend keeps it
+	// (<temp dir>/multipart/<sha256 of the key>/<upload id>/<part number>) must not be readable as a key.
+	// Asked once, after the program, so that this (listed) finding hides nothing that comes before it.
+	if len(o.Violations) == 0 {
+		for _, u := range openUploads() {
+			if len(u.Parts) == 0 {
+				continue
+			}
+			n := sortedInts(u.Parts)[0]
+			sum := sha256.Sum256([]byte(u.Key))
+			pk := fmt.Sprintf(".sgwtmp/multipart/%x/%s/%d", sum, u.ID, n)
+			pg := e.Root().Do(s3c.GetObject(bkt, pk))
+			o.Probe("part_path_requested_as_object")
+			if pg.Resp.OK() && bytes.Equal(pg.Resp.Body, u.Parts[n].Data) && len(u.Parts[n].Data) > 0 {
+				viol("part-readable-as-object", "after the program: GET of the key %q returns the %d bytes of part %d of the upload in progress for %q", pk, len(pg.Resp.Body), n, u.Key)
+			}
+			break
 		}
 	}
 	_ = bytes.Equal
